@@ -766,11 +766,11 @@ func (sf *SpecFile) ParseSpecText(file, text string) error {
 			f := strings.Fields(rc.rest)
 			if len(f) >= 3 && f[0] == "field" {
 				// ghost field Struct.name Type
-				sn := strings.SplitN(f[1], ".", 2)
-				if len(sn) != 2 {
+				ld := strings.LastIndex(f[1], ".")
+				if ld <= 0 {
 					return fmt.Errorf("%s:%d: ghost field Struct.name Type", file, rc.line)
 				}
-				sf.Ghosts = append(sf.Ghosts, &GhostField{sn[0], sn[1], f[2]})
+				sf.Ghosts = append(sf.Ghosts, &GhostField{f[1][:ld], f[1][ld+1:], f[2]})
 			} else if cur != nil {
 				// ghost <point>: target := expr
 				k := strings.Index(rc.rest, ":")
